@@ -104,8 +104,13 @@ def handle (j : Json) : R Json := do
     pure (Json.mkObj [("vn", jstr vn), ("vh", jstr vh),
                       ("inst", jstr (instanceLabel vn mac)), ("host", jstr (hostLabel vh mac))])
   | "names_legacy" =>
+    -- the sanitisers as they were before the repair (used when the tree under check lacks it)
     let name ← getChars j "name"
-    pure (Json.mkObj [("vn", jstr (validNameLegacy name)), ("vh", jstr (validHostNameLegacy name))])
+    let mac := (← getStr j "mac").toList
+    let vn := validNameLegacy name
+    let vh := validHostNameLegacy name
+    pure (Json.mkObj [("vn", jstr vn), ("vh", jstr vh),
+                      ("inst", jstr (instanceLabel vn mac)), ("host", jstr (hostLabel vh mac))])
   | "advert" =>
     let i ← infoOf j
     pure (Json.mkObj [("ok", Json.arr ((advertData i).map fun (k, v) => Json.arr #[Json.str k, Json.str v]).toArray)])
